@@ -453,6 +453,12 @@ func (f *c11Fix) signList(k int, url, purpose string, bits []byte, issued, expir
 
 // signVC lets issuer k sign an arbitrary credential (a credential whose status entry the harness chose).
 func (f *c11Fix) signVC(k int, entry revocation.StatusList2021Entry, serial int) (*vc.VerifiableCredential, error) {
+	return f.signVCStatuses(k, []any{entry}, serial, false)
+}
+
+// signVCStatuses signs a credential with the given credentialStatus entries. A single entry is written as an object, or,
+// with arrayForm, as a one-element array (same JSON-LD meaning, same proof).
+func (f *c11Fix) signVCStatuses(k int, statuses []any, serial int, arrayForm bool) (*vc.VerifiableCredential, error) {
 	id := ssi.MustParseURI(fmt.Sprintf("%s#forged-%d", f.dids[k].String(), serial))
 	tmpl := vc.VerifiableCredential{
 		Context:           []ssi.URI{vc.VCContextV1URI(), ssi.MustParseURI("https://nuts.nl/credentials/v1"), revocation.StatusList2021ContextURI},
@@ -461,7 +467,20 @@ func (f *c11Fix) signVC(k int, entry revocation.StatusList2021Entry, serial int)
 		Issuer:            f.dids[k].URI(),
 		IssuanceDate:      time.Now().Add(-time.Minute),
 		CredentialSubject: []any{map[string]any{"id": "did:web:holder.example"}},
-		CredentialStatus:  []any{entry},
+		CredentialStatus:  statuses,
 	}
-	return f.realSign(f.ctx, tmpl, f.kids[k])
+	cred, err := f.realSign(f.ctx, tmpl, f.kids[k])
+	if err != nil || !arrayForm || len(statuses) != 1 {
+		return cred, err
+	}
+	var m map[string]json.RawMessage
+	b, _ := json.Marshal(cred)
+	if err := json.Unmarshal(b, &m); err != nil {
+		return nil, err
+	}
+	if cs := bytes.TrimSpace(m["credentialStatus"]); len(cs) > 0 && cs[0] == '{' {
+		m["credentialStatus"] = json.RawMessage("[" + string(cs) + "]")
+	}
+	b, _ = json.Marshal(m)
+	return vc.ParseVerifiableCredential(string(b))
 }
